@@ -129,7 +129,11 @@ func (c17) Gen(r *rand.Rand, tier string, idx int) *core.Plan {
 	w["sigpipe"] = int64(r.IntN(3) / 2)
 	// another goroutine of the host calls another plugin at the same time; the caller's logger is a scheduling point
 	w["neighbour"] = int64(r.IntN(3) / 2)
-	if w["neighbour"] == 1 {
+	if w["neighbour"] == 1 && r.IntN(3) == 0 {
+		// the neighbour calls the SAME plugin with the same request, under a context of its own that never ends
+		w["neighbour"] = 2
+	}
+	if w["neighbour"] != 0 {
 		p.Tape = core.Tape(r, 300, core.Pick(r, 0.1, 0.3, 0.6))
 	}
 	if big && r.IntN(3) == 0 {
@@ -377,6 +381,18 @@ func (l c17) Exec(env *core.Env) *core.Result {
 		return pl.VerifySignature(c, &pf.VerifySignatureRequest{})
 	}
 	nbExe := filepath.Join(env.Dir, "plugins-nb", c17Name, "notation-"+c17Name)
+	if w["neighbour"] == 2 {
+		ctx = log.WithLogger(ctx, yieldLogger{})
+		sim.Go("neighbour", func() {
+			nctx := log.WithLogger(context.Background(), yieldLogger{})
+			pl, err := plugin.NewCLIPlugin(nctx, c17Name, exe)
+			if err != nil {
+				return
+			}
+			call(nctx, pl) // its outcome is its own business; it must not hold up or answer the call under study
+			res.Probe("neighbour_call_to_the_same_plugin_returned")
+		})
+	}
 	if w["neighbour"] == 1 {
 		ctx = log.WithLogger(ctx, yieldLogger{})
 		os.MkdirAll(filepath.Dir(nbExe), 0755)
@@ -474,11 +490,11 @@ func (l c17) Exec(env *core.Env) *core.Result {
 	if preN <= len(execLog) {
 		execLog = execLog[preN:]
 	}
-	if w["neighbour"] == 1 {
+	if w["neighbour"] != 0 {
 		// only the processes of the call under study
 		var own []*simexec.Exec
 		for _, e := range execLog {
-			if e.Path != nbExe {
+			if e.Starter != "neighbour" {
 				own = append(own, e)
 			}
 		}
@@ -489,8 +505,8 @@ func (l c17) Exec(env *core.Env) *core.Result {
 		rec = execLog[0]
 	}
 	key := fmt.Sprintf("cmd=%s exit=%d out=%s err=%s timing=%d ctx=%d", cmdName, exit, outKind, errKind, timing, w["ctx"])
-	if w["neighbour"] == 1 {
-		key += " neighbour=1"
+	if w["neighbour"] != 0 {
+		key += fmt.Sprintf(" neighbour=%d", w["neighbour"])
 	}
 	outcome := "not-returned"
 	if returned {
@@ -512,7 +528,21 @@ func (l c17) Exec(env *core.Env) *core.Result {
 	res.Nontrivial = !canonical
 	if rec == nil {
 		if returned && callErr == nil {
-			res.Violate("C17/success-without-process", key, "the call succeeded although no process was started")
+			if w["neighbour"] == 2 {
+				// an identical call was in flight for the same executable: a host that lets both share one process is
+				// within the statement (the process did exit successfully with a reply); counted
+				res.Probe("call_succeeded_on_the_process_of_an_identical_concurrent_call")
+			} else {
+				res.Violate("C17/success-without-process", key, "the call succeeded although no process was started")
+			}
+		}
+		// bounded return after cancellation / expiry holds whether or not the call started a process of its own
+		if cancelSim >= 0 && (!returned || cancelSim <= returnSim) {
+			if !returned {
+				res.Violate("C17/no-return-after-cancel", fmt.Sprintf("timing=%d no-process", timing), "context done at %v; the call had not returned when the simulation ended [%s]", cancelSim, key)
+			} else if returnSim-cancelSim > c17ReturnBound {
+				res.Violate("C17/late-return-after-cancel", fmt.Sprintf("timing=%d no-process", timing), "context done at %v; the call returned at %v, %v later (bound %v) [%s]", cancelSim, returnSim, returnSim-cancelSim, c17ReturnBound, key)
+			}
 		}
 		return res
 	}
